@@ -26,7 +26,11 @@ func genCrashOp(t *rapid.T, e *CrashEnv, lastTS *int64) COp {
 		n := 1 + uni(t, 5, "batch")
 		op := COp{Kind: "publish"}
 		for i := 0; i < n; i++ {
-			*lastTS += int64(pick(t, []int{0, 0, 1, 2}, "dt"))
+			if e.C.AnyTimes {
+				*lastTS = 1 + int64(uni(t, 40, "ts"))
+			} else {
+				*lastTS += int64(pick(t, []int{0, 0, 1, 2}, "dt"))
+			}
 			in := MsgIn{TS: *lastTS}
 			if kk := pick(t, crashKeys, "key"); kk != nil {
 				in.K = append([]byte{}, kk...)
@@ -111,7 +115,7 @@ func genCrashOp(t *rapid.T, e *CrashEnv, lastTS *int64) COp {
 
 func genCrashCfg(t *rapid.T, power bool) *CrashCase {
 	c := &CrashCase{Keys: rapid.Bool().Draw(t, "keys"), Times: rapid.Bool().Draw(t, "times"), Power: power,
-		Rollover: int64(pick(t, []int{60, 130, 250, 1 << 20}, "rollover")), V1: uni(t, 4, "v1") == 3, Keep: rapid.Bool().Draw(t, "keep")}
+		Rollover: int64(pick(t, []int{60, 130, 250, 1 << 20}, "rollover")), V1: uni(t, 4, "v1") == 3, Keep: rapid.Bool().Draw(t, "keep"), AnyTimes: uni(t, 4, "any_times") == 3}
 	if power {
 		c.AutoSync = uni(t, 3, "autosync") == 2
 	} else {
